@@ -5,7 +5,7 @@ from core import World, parse_fs, Line
 from gen import Gen, mode_line, cfg_line, Call
 from suites import run_suite, exp_silent, exp_same_fs, mutate_text
 
-LEAN_MODULES = ['GoSnaps.Props.C19', 'GoSnaps.Props.Tie.Path', 'GoSnaps.Props.Tie.SnapshotIO', 'GoSnaps.Props.Tie.Registry', 'GoSnaps.Props.Tie.Flows', 'GoSnaps.Props.Tie.Wrappers']
+LEAN_MODULES = ['GoSnaps.Props.C19', 'GoSnaps.Props.Tie.Path', 'GoSnaps.Props.Tie.SnapshotIO', 'GoSnaps.Props.Tie.Registry', 'GoSnaps.Props.Tie.Flows', 'GoSnaps.Props.Tie.Wrappers', 'GoSnaps.Props.Tie.Pipeline']
 
 
 def sa_suffix(cfgline, name, k, json_default):
